@@ -29,12 +29,13 @@ PRE = [(r'\.(?:template )?dequeue<false, pop_retries>\(', '.dequeue_np(', 'tpl_d
        (r'\bdelete (\w+);', r'XV_DELETE_NODE(\1);', 'delete_node'),
        (r'\bguard_ptr n;', 'guard_ptr n = 0;', 'guard_default'),
        (r'marked_ptr expected\{nullptr\};', 'marked_ptr expected = 0;', 'brace_init')]
+REFALIAS = [(r'__auto_type data_p = &\(([^;]*)\);\n#define data \(\*data_p\)', r'#define data (\1)', 'ref_alias')]   # T& data = <cell lvalue>: alias the lvalue instead of taking a pointer
 RINGM = {'dequeue_np': 'RING_dequeue', 'enqueue_ff': 'RING_enqueue_ff', 'enqueue_ft': 'RING_enqueue_ft', 'finalize': 'RING_finalize',
          'set_threshold': 'RING_set_threshold'}
-NODE = dict(file=Q, pre_subst=PRE, methods=RINGM, members=['_storage', '_allocated_queue', '_free_queue', '_next'],
+NODE = dict(file=Q, pre_subst=PRE, post_subst=REFALIAS, methods=RINGM, members=['_storage', '_allocated_queue', '_free_queue', '_next'],
             subst=[(r'\bvalue\b', '(*value_p)', 'value_ref')])
 CTORPOST = [(r'detail::nikolaev_scq::', '', 'ns'), (r'\b(\w+)_tag\{\}', r'XV_TAG_\1', 'tag'), (r'new storage_t\[([^\]]*)\]', r'\1', 'new_array')]
-QUEUE = dict(file=Q, pre_subst=PRE, members=['_tail', '_head'],
+QUEUE = dict(file=Q, pre_subst=PRE, post_subst=REFALIAS, members=['_tail', '_head'],
              methods=dict(RINGM, acquire='G_acquire', reclaim='G_reclaim', try_push='NODE_try_push', steal_init_value='NODE_steal_init_value', get='MP_get'),
              deref={'n': 'GDEREF', 'next': 'NDEREF', 'h': 'NDEREF'})
 UNIT = dict(
@@ -56,18 +57,18 @@ UNIT = dict(
     dict(id='calc_remap_shift', file=S, sig=r'static constexpr std::size_t calc_remap_shift\(std::size_t capacity\)',
          c_sig='static size_t calc_remap_shift(size_t capacity)', subst=[(r'utils::', '', 'utils_ns')], must_fire={'subst:utils_ns': 2}),
     # ---- node
-    dict(NODE, id='node_ctor', sig=r'\bnode\(\)(?=\s*:)', ctor=True, c_sig='static void nq_node_ctor(struct node* self)', post_subst=CTORPOST,
+    dict(NODE, id='node_ctor', sig=r'\bnode\(\)(?=\s*:)', ctor=True, c_sig='static void nq_node_ctor(struct node* self)', post_subst=CTORPOST + REFALIAS,
          must_fire={'ctor_init': 3, 'subst:ns': 2, 'subst:tag': 2, 'subst:new_array': 1}),
     dict(NODE, id='node_ctor_value', sig=r'explicit node\(value_type&& value\)', ctor=True, c_sig='static void nq_node_ctor_value(struct node* self, T* value_p)',
-         post_subst=CTORPOST, must_fire={'ctor_init': 3, 'subst:ns': 2, 'subst:tag': 2, 'subst:new_array': 1, 'subst:placement_new': 1, 'subst:value_ref': 1}),
+         post_subst=CTORPOST + REFALIAS, must_fire={'ctor_init': 3, 'subst:ns': 2, 'subst:tag': 2, 'subst:new_array': 1, 'subst:placement_new': 1, 'subst:value_ref': 1}),
     dict(NODE, id='node_dtor', sig=r'~node\(\) override', c_sig='static void nq_node_dtor(struct node* self)',
          must_fire={'subst:tpl_dequeue': 1, 'subst:dtor_call': 1, 'method:dequeue_np': 1}),
     dict(NODE, id='steal_init_value', sig=r'void steal_init_value\(value_type& value\)', c_sig='static void nq_node_steal_init_value(struct node* self, T* value_p)',
-         must_fire={'subst:tpl_dequeue': 1, 'subst:tpl_enqueue_ff': 1, 'subst:storage_ref': 1, 'subst:move_assign': 1, 'subst:dtor_call_ref': 1, 'reference': 1,
+         must_fire={'subst:tpl_dequeue': 1, 'subst:tpl_enqueue_ff': 1, 'subst:storage_ref': 1, 'subst:move_assign': 1, 'subst:dtor_call_ref': 1, 'reference': 1, 'subst:ref_alias': 1,
                     'method:dequeue_np': 1, 'method:enqueue_ff': 1, 'subst:value_ref': 1}),
     dict(NODE, id='node_try_push', sig=r'bool try_push\(value_type&& value\)', c_sig='static _Bool nq_node_try_push(struct node* self, T* value_p)',
          must_fire={'subst:tpl_dequeue': 1, 'subst:tpl_enqueue_ff': 1, 'subst:tpl_enqueue_ft': 1, 'subst:placement_new': 1, 'subst:storage_ref': 1,
-                    'subst:move_assign': 1, 'subst:dtor_call_ref': 1, 'reference': 1, 'method:finalize': 1,
+                    'subst:move_assign': 1, 'subst:dtor_call_ref': 1, 'reference': 1, 'subst:ref_alias': 1, 'method:finalize': 1,
                     'method:dequeue_np': 1, 'method:enqueue_ff': 1, 'method:enqueue_ft': 1, 'subst:value_ref': 2}),
     # ---- queue
     dict(QUEUE, id='ctor', sig=r'nikolaev_queue<T, Policies\.\.\.>::nikolaev_queue\(\)', c_sig='static void nq_ctor(struct nq* self)',
@@ -84,7 +85,7 @@ UNIT = dict(
     dict(QUEUE, id='do_pop', sig=r'auto nikolaev_queue<T, Policies\.\.\.>::do_pop\(SuccessFunc successFunc, EmptyFunc emptyFunc\)',
          c_sig='static _Bool nq_do_pop(struct nq* self, T* successFunc, int emptyFunc)',
          calls={'successFunc': 'XV_CALL_SUCCESS', 'emptyFunc': 'XV_CALL_EMPTY'},
-         must_fire={'subst:guard_default': 1, 'subst:tpl_dequeue': 2, 'subst:tpl_enqueue_ff': 1, 'subst:storage_ref': 1, 'subst:dtor_call_ref': 1, 'reference': 1,
+         must_fire={'subst:guard_default': 1, 'subst:tpl_dequeue': 2, 'subst:tpl_enqueue_ff': 1, 'subst:storage_ref': 1, 'subst:dtor_call_ref': 1, 'reference': 1, 'subst:ref_alias': 1,
                     'method:acquire': 1, 'method:reclaim': 1, 'method:set_threshold': 1, 'method:dequeue_np': 2, 'method:enqueue_ff': 1,
                     'A_LOAD': 2, 'A_CASW': 1, 'call:successFunc': 1, 'call:emptyFunc': 1}),
     dict(id='try_pop', file=Q, sig=r'bool nikolaev_queue<T, Policies\.\.\.>::try_pop\(value_type& result\)',
@@ -92,7 +93,7 @@ UNIT = dict(
          subst=[(r'\bresult\b', '(*result_p)', 'result_ref')], self_calls={'do_pop': 'nq_do_pop'},
          must_fire={'lambda': 2, 'subst:result_ref': 1, 'self_call:do_pop': 1}),
   ],
-  runs=[dict(id='%s_c%d' % (op, c), entry='h_' + op, defs={'CAP': c}, unwind=max(c + 2, 5), tiers=tiers, cls='shape-complete',
+  runs=[dict(id='%s_c%d' % (op, c), entry='h_' + op, defs={'CAP': c}, unwind=3 * c + 2, unwindset=['nq_push.0:4', 'nq_do_pop.0:4', 'nq_dtor.0:4', 'nq_node_dtor.0:%d' % (c + 2)], tiers=tiers, cls='shape-complete',
             note=note)
         for op, note in (('node_ctor', 'both node constructors'), ('node_try_push', 'from ANY node state of Inv_N incl. finalized'), ('steal', 'fresh private node'),
                          ('node_dtor', 'from ANY node state'), ('push', 'queue of 1 or 2 nodes in any Inv_N state, tail possibly lagging'),
